@@ -4,17 +4,17 @@ From Cddl Require Import Base.Bytes Csv.Reader Csv.Spec.
 Open Scope N_scope.
 Local Arguments N.eqb : simpl never.
 
-Ltac unfold_step :=
-  unfold dfa_step, dfa_step_fuel, transition_nfa, term_equals, term_is_crlf, cfg_quoting,
-    cfg_quote, cfg_double_quote, cfg_escape, cfg_comment, cfg_delimiter, opt_is.
+Ltac step_red E34 E44 E13 E10 :=
+  unfold dfa_step;
+  repeat (progress (cbn; unfold term_equals, cfg_quote, cfg_delimiter; rewrite ?E34, ?E44, ?E13, ?E10)).
 
 (* ---------- totality ---------- *)
 Lemma dfa_step_total : forall st c, dfa_step st c <> None.
 Proof.
-  intros st c. unfold_step.
+  intros st c.
   destruct (34 =? c) eqn:E34; destruct (44 =? c) eqn:E44;
-  destruct (c =? 13) eqn:E13; destruct (c =? 10) eqn:E10;
-  destruct st; cbn; rewrite ?E34, ?E44, ?E13, ?E10; cbn; discriminate.
+  destruct (c =? 13) eqn:E13; destruct (c =? 10) eqn:E10.
+  all: destruct st; step_red E34 E44 E13 E10; discriminate.
 Qed.
 
 Lemma run_total : forall bs st cur rec recs, run st cur rec recs bs <> None.
@@ -51,13 +51,12 @@ Lemma step_plain_start : forall s b, is_special b = false -> (starts s || closes
   dfa_step s b = Some (InField, true).
 Proof.
   intros s b Hb Hs. destruct (special_false b Hb) as [E34 [E44 [E13 E10]]].
-  destruct s; try discriminate Hs; unfold_step; cbn; rewrite ?E34, ?E44, ?E13, ?E10; cbn;
-    rewrite ?E34, ?E44, ?E13, ?E10; reflexivity.
+  destruct s; try discriminate Hs; step_red E34 E44 E13 E10; reflexivity.
 Qed.
 
 Lemma step_quoted_other : forall b, (34 =? b) = false ->
   dfa_step InQuotedField b = Some (InQuotedField, true).
-Proof. intros b E. unfold_step. cbn. rewrite E. reflexivity. Qed.
+Proof. intros b E. unfold dfa_step. cbn. unfold cfg_quote. rewrite E. reflexivity. Qed.
 
 Lemma step_quote : forall s, starts s = true -> dfa_step s 34 = Some (InQuotedField, false).
 Proof. intros s Hs. destruct s; try discriminate Hs; reflexivity. Qed.
@@ -187,11 +186,11 @@ Proof.
     destruct (run_record st r s0 [] recs Hrne (record_start_starts s0 Hs))
       as [s [cur [rec' [Hc [Hrev Hrun]]]]].
     { intros _. apply negb_true_iff. exact Hlr. }
-    cbn [rev app] in Hrev.
+    change (rev [] ++ r) with r in Hrev.
     destruct rows as [|r2 rows].
     + cbn [write_csv4180]. destruct (final_break st).
       * rewrite Hrun. destruct (run_break st s cur rec' recs [] Hc) as [s' [Hs' Hb]].
-        rewrite Hb. rewrite run_end_start by exact Hs'. rewrite Hrev. reflexivity.
+        rewrite app_nil_r in Hb. rewrite Hb. rewrite run_end_start by exact Hs'. rewrite Hrev. reflexivity.
       * rewrite Hrun. rewrite run_end_closes by exact Hc. rewrite Hrev. reflexivity.
     + change (write_csv4180 st (r :: r2 :: rows))
         with (write_record st r ++ line_break st ++ write_csv4180 st (r2 :: rows)).
